@@ -69,9 +69,11 @@ class Fut:
 class World:
     """per-run environment state"""
 
-    def __init__(self, outcomes, dts, perms=()):
+    def __init__(self, outcomes, dts, perms=(), max_running=None):
         self.outcomes = list(outcomes)
         self.oi = 0
+        self.max_running = max_running  # bound on the number of "still running" observations in one schedule
+        self.n_running = 0
         self.perms = list(perms)
         self.pi = 0
         self.dts = list(dts)
@@ -147,6 +149,10 @@ class ShimAsyncio:
         rest = set()
         for f in pend:
             o = w.outcome()
+            if o == 0 and w.max_running is not None:
+                w.n_running += 1
+                if w.n_running > w.max_running:
+                    raise sx.Unreachable()
             if o == 1:
                 f._done = True
                 finished.add(f)
@@ -207,3 +213,98 @@ def run_coro(co):
     except StopIteration as si:
         return si.value
     raise RuntimeError("coroutine suspended: a shim awaited something real")
+
+
+# ---------------------------------------------------------------------------------------------
+# aiostream stand-ins (stream.iterate / stream.merge): contract = an async iterator over the source(s);
+# merge yields the items of its sources in an arbitrary interleaving chosen by the oracle
+# ---------------------------------------------------------------------------------------------
+class SObj:
+    """stands for an aiostream Stream: .stream() gives an async context manager yielding an async iterator"""
+
+    def __init__(self, agen):
+        self.agen = agen
+
+    def stream(self):
+        return self
+
+    async def __aenter__(self):
+        return self.agen
+
+    async def __aexit__(self, *a):
+        return False
+
+
+class ShimStream:
+    @staticmethod
+    def iterate(agen):
+        return SObj(agen)
+
+    @staticmethod
+    def merge(*streams):
+        async def merged():
+            its = [s.agen for s in streams]
+            live = list(range(len(its)))
+            while live:
+                j = live[WORLD.perm(len(live))]  # arbitrary interleaving: the oracle picks the source polled next
+                try:
+                    item = await its[j].__anext__()
+                except StopAsyncIteration:
+                    live.remove(j)
+                    continue
+                yield item
+
+        return SObj(merged())
+
+
+def validate(n_scripts=60, seed=0):
+    """replay random scripts on a real event loop with real futures: the real asyncio.wait must be able to produce
+    the (done, pending) split the shim produced, and the driven generator must yield the same results"""
+    import asyncio
+    import random
+
+    rnd = random.Random(seed)
+    checked = 0
+    for _ in range(n_scripts):
+        n = rnd.randint(1, 4)
+        script = [[rnd.choice([0, 1, 1, 2]) for _ in range(n)] for _ in range(4)]
+
+        async def real():
+            loop = asyncio.get_running_loop()
+            futs = [loop.create_future() for _ in range(n)]
+            pending = set(futs)
+            log = []
+            for wave in script:
+                if not pending:
+                    break
+                for f, o in zip(futs, wave):
+                    if f in pending and not f.done():
+                        if o == 1:
+                            f.set_result(1)
+                        elif o == 2:
+                            f.set_exception(TaskError(0, 0))
+                done, pending = await asyncio.wait(pending, return_when=asyncio.FIRST_COMPLETED, timeout=0.001)
+                log.append((sorted(futs.index(f) for f in done), sorted(futs.index(f) for f in pending)))
+                for f in done:
+                    f.exception()
+            return log
+
+        def shim():
+            global WORLD
+            futs = [Fut(i, False, i + 1) for i in range(n)]
+            pending = set(futs)
+            log = []
+            for wave in script:
+                if not pending:
+                    break
+                outs = [wave[f.uid - 1] for f in sorted(pending, key=lambda f: f.uid)]
+                WORLD = World(outs, [], [0] * 8)
+                done, pending = run_coro(ShimAsyncio.wait(pending))
+                log.append((sorted(f.uid - 1 for f in done), sorted(f.uid - 1 for f in pending)))
+            return log
+
+        a = asyncio.run(real())
+        b = shim()
+        assert a == b, (script, a, b)
+        checked += 1
+    return checked
